@@ -208,6 +208,37 @@ Proof.
     destruct (Z.eqb_spec m 0); [left; reflexivity|]. destruct Hc as [Hc|Hc]; [contradiction|right; exact Hc].
 Qed.
 
+Lemma lang_single_inv ct it s : lang ct [it] s ->
+  forallb (sem_cset ct (i_set it)) s = true /\ count_ok (i_min it) (i_max it) (length s).
+Proof.
+  intro H. inversion H as [|? ? s1 s2 Ha Hc Hr]; subst. inversion Hr; subst. rewrite app_nil_r. split; assumption.
+Qed.
+
+Lemma lang_app_inv ct i1 : forall i2 s, lang ct (i1 ++ i2) s -> exists s1 s2, s = s1 ++ s2 /\ lang ct i1 s1 /\ lang ct i2 s2.
+Proof.
+  induction i1 as [|it i1 IH]; intros i2 s H; cbn [app] in H.
+  - exists [], s. split; [reflexivity|split; [constructor|exact H]].
+  - inversion H as [|? ? a b Ha Hc Hr]; subst. destruct (IH i2 b Hr) as (s1 & s2 & -> & H1 & H2).
+    exists (a ++ s1), s2. split; [rewrite app_assoc; reflexivity|split; [constructor; assumption|exact H2]].
+Qed.
+
+Lemma quant_items_lang_inv ct cs regex m M s : lang ct (quant_items cs regex m M) s ->
+  forallb (sem_cset ct cs) s = true /\ count_ok m M (length s).
+Proof.
+  unfold quant_items. destruct M as [M'|].
+  - destruct (Z.eqb m M' && negb (Z.eqb m 1) && Z.eqb m 2 && Nat.eqb (length regex) 1) eqn:E.
+    + apply andb_true_iff in E as [E _]. apply andb_true_iff in E as [E E2]. apply andb_true_iff in E as [E1 _].
+      apply Z.eqb_eq in E1. apply Z.eqb_eq in E2. subst M' m. intro H.
+      change [{| i_set := cs; i_min := 1; i_max := Some 1 |}; {| i_set := cs; i_min := 1; i_max := Some 1 |}]
+        with ([{| i_set := cs; i_min := 1; i_max := Some 1 |}] ++ [{| i_set := cs; i_min := 1; i_max := Some 1 |}]) in H.
+      apply lang_app_inv in H as (s1 & s2 & -> & H1 & H2).
+      apply lang_single_inv in H1 as [A1 C1]. apply lang_single_inv in H2 as [A2 C2]. cbn [i_set i_min i_max count_ok] in *.
+      rewrite forallb_app, A1, A2, app_length. split; [reflexivity|]. cbn [count_ok]. lia.
+    + intro H. apply lang_single_inv in H. exact H.
+  - intro H. apply lang_single_inv in H as [A C]. cbn [i_set i_min i_max count_ok] in *. split; [exact A|].
+    destruct (Z.eqb_spec m 0); [left; assumption|]. destruct C as [C|C]; [discriminate|right; exact C].
+Qed.
+
 (* ------------------------------------------------------------------ C. atoms *)
 Lemma memc_false_neq c l k : memc c l = false -> In k l -> Z.eqb c k = false.
 Proof.
@@ -535,7 +566,7 @@ Definition part_good (e : str) (top : bool) (f : frag) (part : str) (its : list 
      parse_seq (k + fuel) top (part ++ rest) = Some (its ++ irest, rend)) /\
   (k <= List.length part)%nat /\
   (forall rest, starts_quant rest = false -> starts_quant (part ++ rest) = false) /\
-  (forall ct s, frag_matches ct false e f s -> lang ct its s).
+  (forall ct s, frag_matches ct false e f s <-> lang ct its s).
 
 Lemma quant_okb_ok m M : quant_okb m M = true -> quant_ok m M.
 Proof.
@@ -546,7 +577,7 @@ Qed.
 (* a single quantified atom *)
 Lemma single_part e top f cs regex (p : Z -> bool) :
   atom_ok cs regex -> quant_ok (f_min f) (f_max f) ->
-  (forall ct s, frag_matches ct false e f s -> forallb (sem_cset ct cs) s = true /\ count_ok (f_min f) (f_max f) (List.length s)) ->
+  (forall ct s, frag_matches ct false e f s <-> forallb (sem_cset ct cs) s = true /\ count_ok (f_min f) (f_max f) (List.length s)) ->
   part_good e top f (quantify regex (f_min f) (f_max f)) (quant_items cs regex (f_min f) (f_max f))
             (List.length (quant_items cs regex (f_min f) (f_max f))).
 Proof.
@@ -563,7 +594,7 @@ Proof.
   - intros rest Hsq. destruct Hok as [_ Hh]. unfold quantify.
     destruct (f_max f) as [M'|]; repeat match goal with |- context [if ?b then _ else _] => destruct b end;
       rewrite <- ?app_assoc; apply head_ok_not_quant; exact Hh.
-  - intros ct s Hm. destruct (Hsem ct s Hm) as [H1 H2]. apply quant_items_lang; assumption.
+  - intros ct s. rewrite (Hsem ct s). split; [intros [H1 H2]; apply quant_items_lang; assumption|apply quant_items_lang_inv].
 Qed.
 
 (* a literal string of several (or no) characters *)
@@ -592,8 +623,23 @@ Proof.
   constructor; [cbn; rewrite Z.eqb_refl; reflexivity|cbn; lia|exact IH].
 Qed.
 
+Lemma lang_literal_inv ct l : forall s, lang ct (map (fun c => {| i_set := CLit c; i_min := 1; i_max := Some 1 |}) l) s -> s = l.
+Proof.
+  induction l as [|c l IH]; intros s H; cbn [map] in H.
+  - inversion H. reflexivity.
+  - inversion H as [|? ? a b Ha Hc Hr]; subst. cbn [i_set i_min i_max count_ok] in *. rewrite (IH b Hr).
+    destruct a as [|x [|y a]]; cbn [length] in Hc; try lia. cbn [forallb sem_cset] in Ha. apply andb_true_iff in Ha as [Ha _].
+    apply Z.eqb_eq in Ha. subst x. reflexivity.
+Qed.
+
 Lemma forallb_ext_local {T} (p q : T -> bool) l : (forall x, p x = q x) -> forallb p l = forallb q l.
 Proof. intro H. induction l as [|x l IH]; cbn [forallb]; [reflexivity|]. rewrite H, IH. reflexivity. Qed.
+
+Lemma pred_sem_iff ct e f cs p : atom_pred ct false e (f_atom f) = Some p -> (forall x, sem_cset ct cs x = p x) ->
+  forall s, frag_matches ct false e f s <-> forallb (sem_cset ct cs) s = true /\ count_ok (f_min f) (f_max f) (List.length s).
+Proof.
+  intros Hp Hx s. unfold frag_matches. rewrite Hp, (forallb_ext_local _ _ s Hx). reflexivity.
+Qed.
 
 Lemma escape_length full l : (List.length l <= List.length (escape full l))%nat.
 Proof.
@@ -615,13 +661,14 @@ Proof.
       * intros fuel rest irest rend _ H. exact H.
       * cbn. lia.
       * intros rest H. exact H.
-      * intros ct s Hm. unfold frag_matches in Hm. cbn [f_atom atom_pred] in Hm. destruct Hm as [-> _]. constructor.
+      * intros ct s. unfold frag_matches. cbn [f_atom atom_pred f_min f_max]. split; [intros [-> _]; constructor|].
+        intro H. inversion H. repeat split.
     + (* one character *)
       injection Hp as <-. unfold escape. cbn [flat_map]. rewrite app_nil_r.
       exists (quant_items (CLit c) (escape_char full c) m M), (List.length (quant_items (CLit c) (escape_char full c) m M)).
       apply (single_part e top {| f_atom := ALit [c]; f_min := m; f_max := M |} (CLit c) (escape_char full c) (Z.eqb c));
         [apply basic_atom, escape_char_basic|apply quant_okb_ok; exact Hr|].
-      intros ct s Hm. unfold frag_matches in Hm. cbn [f_atom atom_pred f_min f_max] in Hm. exact Hm.
+      intros ct s. apply (pred_sem_iff ct e {| f_atom := ALit [c]; f_min := m; f_max := M |} (CLit c) (Z.eqb c)); [reflexivity|reflexivity].
     + (* a longer literal *)
       apply andb_true_iff in Hr as [H1 H2]. apply Z.eqb_eq in H1. unfold opt_Z_eqb in H2. destruct M as [M'|]; [|discriminate].
       apply Z.eqb_eq in H2. subst m M'. injection Hp as <-.
@@ -632,20 +679,20 @@ Proof.
       * exact (escape_length full (c :: c2 :: s2)).
       * intros rest Hsq. assert (Hok := basic_atom _ _ (escape_char_basic full c)). unfold escape. cbn [flat_map]. rewrite <- app_assoc.
         apply head_ok_not_quant. apply Hok.
-      * intros ct s Hm. unfold frag_matches in Hm. cbn [f_atom atom_pred] in Hm. destruct Hm as [-> _]. apply lang_literal.
+      * intros ct s. unfold frag_matches. cbn [f_atom atom_pred f_min f_max]. split; [intros [-> _]; apply lang_literal|].
+        intro H. apply lang_literal_inv in H. subst s. repeat split.
   - (* a raw character *)
     apply andb_true_iff in Hr as [Hc Hq]. injection Hp as <-.
     destruct (Z.eqb_spec c 46) as [->|Hne].
     + exists (quant_items CAny [46] m M), (List.length (quant_items CAny [46] m M)).
       apply (single_part e top {| f_atom := ARaw 46; f_min := m; f_max := M |} CAny [46] (fun _ => true));
         [apply basic_atom, dot_atom|apply quant_okb_ok; exact Hq|].
-      intros ct s Hm. unfold frag_matches in Hm. cbn [f_atom atom_pred f_min f_max] in Hm. destruct Hm as [H1 H2].
-      split; [|exact H2]. cbn [sem_cset]. clear. induction s; [reflexivity|exact IHs].
+      intros ct s. apply (pred_sem_iff ct e {| f_atom := ARaw 46; f_min := m; f_max := M |} CAny (raw_sem 46)); [reflexivity|reflexivity].
     + cbn [orb] in Hc. apply negb_true_iff in Hc. exists (quant_items (CLit c) [c] m M), (List.length (quant_items (CLit c) [c] m M)).
       apply (single_part e top {| f_atom := ARaw c; f_min := m; f_max := M |} (CLit c) [c] (Z.eqb c));
         [apply basic_atom, not_meta_plain; exact Hc|apply quant_okb_ok; exact Hq|].
-      intros ct s Hm. unfold frag_matches in Hm. cbn [f_atom atom_pred f_min f_max] in Hm. destruct Hm as [H1 H2].
-      split; [|exact H2]. rewrite <- H1. apply forallb_ext_local. intro x. cbn [sem_cset]. unfold raw_sem.
+      intros ct s. apply (pred_sem_iff ct e {| f_atom := ARaw c; f_min := m; f_max := M |} (CLit c) (raw_sem c)); [reflexivity|].
+      intro x. cbn [sem_cset]. unfold raw_sem.
       replace (Z.eqb c 46) with false by (symmetry; apply Z.eqb_neq; exact Hne). cbn [orb]. apply Z.eqb_sym.
   - (* a category *)
     apply andb_true_iff in Hr as [Hc Hq]. apply andb_true_iff in Hc as [Hc Hsome]. apply memc_In in Hc.
@@ -654,8 +701,8 @@ Proof.
     rewrite Ht0 in Ht. injection Ht as <-. injection Hp as <-. exists (quant_items cs t0 m M), (List.length (quant_items cs t0 m M)).
     apply (single_part e top {| f_atom := AClass code; f_min := m; f_max := M |} cs t0 (fun _ => true));
       [exact Hok|apply quant_okb_ok; exact Hq|].
-    intros ct s Hm. unfold frag_matches in Hm. cbn [f_atom atom_pred f_min f_max] in Hm. destruct Hm as [H1 H2].
-    split; [|exact H2]. rewrite <- H1. apply forallb_ext_local. intro x. apply Hsem.
+    intros ct s. apply (pred_sem_iff ct e {| f_atom := AClass code; f_min := m; f_max := M |} cs (cat_sem ct false e code)); [reflexivity|].
+    intro x. apply Hsem.
   - (* a bracket over a set of characters *)
     apply andb_true_iff in Hr as [Hc Hq]. injection Hp as <-.
     assert (Hne : cs <> []) by (destruct cs; [discriminate|discriminate]).
@@ -663,8 +710,8 @@ Proof.
            (List.length (quant_items (CBr false (map BChar (bracket_order cs))) (escaped_bracket false cs) m M)).
     apply (single_part e top {| f_atom := ABracket cs; f_min := m; f_max := M |} _ _ (fun _ => true));
       [apply basic_atom, bracket_atom; exact Hne|apply quant_okb_ok; exact Hq|].
-    intros ct s Hm. unfold frag_matches in Hm. cbn [f_atom atom_pred f_min f_max] in Hm. destruct Hm as [H1 H2].
-    split; [|exact H2]. rewrite <- H1. apply forallb_ext_local. intro x. cbn [sem_cset xorb].
+    intros ct s. apply (pred_sem_iff ct e {| f_atom := ABracket cs; f_min := m; f_max := M |} _ (fun x => memc x cs)); [reflexivity|].
+    intro x. cbn [sem_cset xorb].
     rewrite br_chars_sem, (memc_ext _ _ x (bracket_order_In cs)). destruct (memc x cs); reflexivity.
 Qed.
 
@@ -748,11 +795,12 @@ Lemma fragments_parts e full tagged : In e extras8 -> forall frags parts,
        parse_seq (K + fuel) true (List.concat parts ++ rest) = Some (its ++ irest, rend)) /\
     (K <= List.length (List.concat parts))%nat /\
     (forall rest, starts_quant rest = false -> starts_quant (List.concat parts ++ rest) = false) /\
-    (forall ct s, matches_frags ct false e frags s -> lang ct its s).
+    (forall ct s, matches_frags ct false e frags s <-> lang ct its s).
 Proof.
   intro He. induction frags as [|f frags IH]; intros parts Hr Hm; cbn [mapM forallb] in *.
-  - injection Hm as <-. exists [], O. cbn [List.concat app Nat.add List.length]. repeat split; try (intros; assumption); try lia.
-    intros ct s H. inversion H; subst. constructor.
+  - injection Hm as <-. exists [], O. cbn [List.concat app Nat.add List.length].
+    split; [intros; assumption|]. split; [lia|]. split; [intros; assumption|].
+    intros ct s. split; intro H; inversion H; subst; constructor.
   - apply andb_true_iff in Hr as [Hr1 Hr2].
     destruct (fragment2re false full e tagged f) as [p|err] eqn:Ep; cbn [bind] in Hm; [|discriminate].
     destruct (mapM (fragment2re false full e tagged) frags) as [ps|err] eqn:Eps; cbn [bind] in Hm; [|discriminate].
@@ -763,7 +811,9 @@ Proof.
       apply Hp1; [apply Hh2; exact Hsq|]. apply Hp2; assumption.
     + rewrite app_length. lia.
     + intros rest Hsq. rewrite <- app_assoc. apply Hh1, Hh2. exact Hsq.
-    + intros ct s H. inversion H as [|? ? s1 s2 Hf Hrest']; subst. apply lang_app; [apply Hs1; exact Hf|apply Hs2; exact Hrest'].
+    + intros ct s. split.
+      * intro H. inversion H as [|? ? s1 s2 Hf Hrest']; subst. apply lang_app; [apply Hs1; exact Hf|apply Hs2; exact Hrest'].
+      * intro H. apply lang_app_inv in H as (s1 & s2 & -> & H1 & H2). constructor; [apply Hs1; exact H1|apply Hs2; exact H2].
 Qed.
 
 Definition ws_item : item := {| i_set := CSpace; i_min := 0; i_max := None |}.
@@ -788,7 +838,7 @@ Proof.
   intros He Hr Hv Hm. unfold vrle2re in Hv.
   destruct (mapM (fragment2re false full e tagged) frags) as [parts|err] eqn:Ep; cbn [bind] in Hv; [|discriminate].
   injection Hv as <-. destruct (fragments_parts e full tagged He frags parts Hr Ep) as (its & K & Hparse & HK & Hhead & Hsem).
-  specialize (Hsem ct s Hm).
+  pose proof (proj1 (Hsem ct s) Hm) as Hlang.
   assert (Hend : forall f, parse_seq (S f) true [36] = Some ([], [])) by reflexivity.
   unfold re_model_fullmatch, parse_regex. cbn [app]. change (Z.eqb 94 94) with true. cbv iota.
   destruct stripped.
@@ -802,7 +852,7 @@ Proof.
       by (rewrite !app_length; cbn [List.length]; lia).
     assert (Hl : lang ct (ws_item :: its ++ [ws_item]) s).
     { change s with ([] ++ s). constructor; [reflexivity|left; reflexivity|].
-      rewrite <- (app_nil_r s). apply lang_app; [exact Hsem|].
+      rewrite <- (app_nil_r s). apply lang_app; [exact Hlang|].
       change (@nil Z) with (@nil Z ++ []). constructor; [reflexivity|left; reflexivity|constructor]. }
     rewrite (match_items_complete ct _ s Hl). reflexivity.
   - cbn [app].
@@ -810,7 +860,67 @@ Proof.
     { apply Hparse; [reflexivity|apply Hend]. }
     rewrite (parse_seq_ge _ (S (List.length (List.concat parts ++ [36]))) true _ _ Hall)
       by (rewrite app_length; cbn [List.length]; lia).
-    rewrite app_nil_r, (match_items_complete ct _ s Hsem). reflexivity.
+    rewrite app_nil_r, (match_items_complete ct _ s Hlang). reflexivity.
+Qed.
+
+(* the rendered text parses to the items of the pattern (padded with \s* when stripped), and those items accept exactly
+   what the pattern matches fragment by fragment *)
+Definition padded (stripped : bool) (its : list item) : list item :=
+  if stripped then ws_item :: its ++ [ws_item] else its.
+
+Theorem rendered_text_parses e full stripped tagged frags text :
+  In e extras8 -> forallb (frag_renderable e) frags = true ->
+  vrle2re false full e stripped tagged frags = Ok text ->
+  exists its, parse_regex text = Some (padded stripped its) /\
+              forall ct s, matches_frags ct false e frags s <-> lang ct its s.
+Proof.
+  intros He Hr Hv. unfold vrle2re in Hv.
+  destruct (mapM (fragment2re false full e tagged) frags) as [parts|err] eqn:Ep; cbn [bind] in Hv; [|discriminate].
+  injection Hv as <-. destruct (fragments_parts e full tagged He frags parts Hr Ep) as (its & K & Hparse & HK & Hhead & Hsem).
+  exists its. split; [|exact Hsem].
+  assert (Hend : forall f, parse_seq (S f) true [36] = Some ([], [])) by reflexivity.
+  unfold parse_regex, padded. cbn [app]. change (Z.eqb 94 94) with true. cbv iota.
+  destruct stripped.
+  - match goal with |- context [s2l ?x] => change (s2l x) with [92; 115; 42] end.
+    assert (Hall : parse_seq (S (K + S (S O))) true ([92; 115; 42] ++ List.concat parts ++ [92; 115; 42] ++ [36]) =
+                   Some (ws_item :: its ++ [ws_item], [])).
+    { apply ws_parses; [apply Hhead; reflexivity|].
+      apply (Hparse (S (S O)) ([92; 115; 42] ++ [36]) [ws_item] []); [reflexivity|]. apply ws_parses; [reflexivity|apply Hend]. }
+    rewrite (parse_seq_ge _ (S (List.length ([92; 115; 42] ++ List.concat parts ++ [92; 115; 42] ++ [36]))) true _ _ Hall)
+      by (rewrite !app_length; cbn [List.length]; lia).
+    reflexivity.
+  - cbn [app].
+    assert (Hall : parse_seq (K + S O) true (List.concat parts ++ [36]) = Some (its ++ [], [])).
+    { apply Hparse; [reflexivity|apply Hend]. }
+    rewrite (parse_seq_ge _ (S (List.length (List.concat parts ++ [36]))) true _ _ Hall)
+      by (rewrite app_length; cbn [List.length]; lia).
+    rewrite app_nil_r. reflexivity.
+Qed.
+
+(* EXACTNESS (not stripped): the model's reading of the text accepts exactly the strings the pattern matches *)
+Theorem rendered_text_exact ct e full tagged frags text s :
+  In e extras8 -> forallb (frag_renderable e) frags = true ->
+  vrle2re false full e false tagged frags = Ok text ->
+  (re_model_fullmatch ct text s = Some true <-> matches_frags ct false e frags s).
+Proof.
+  intros He Hr Hv. destruct (rendered_text_parses e full false tagged frags text He Hr Hv) as (its & Hp & Hsem).
+  unfold re_model_fullmatch. rewrite Hp. cbn [padded]. rewrite (Hsem ct s), <- match_items_spec. split; [intro H; injection H as ->; reflexivity|intros ->; reflexivity].
+Qed.
+
+(* C13: the tagged and the untagged rendering of a pattern accept the same strings: tagging only adds groups *)
+Theorem tag_same_language ct e full frags t0 t1 s :
+  In e extras8 -> forallb (frag_renderable e) frags = true ->
+  vrle2re false full e false false frags = Ok t0 ->
+  vrle2re false full e false true frags = Ok t1 ->
+  re_model_fullmatch ct t0 s = re_model_fullmatch ct t1 s.
+Proof.
+  intros He Hr H0 H1.
+  destruct (rendered_text_parses e full false false frags t0 He Hr H0) as (i0 & P0 & S0).
+  destruct (rendered_text_parses e full false true frags t1 He Hr H1) as (i1 & P1 & S1).
+  unfold re_model_fullmatch. rewrite P0, P1. cbn [padded]. f_equal.
+  destruct (match_items ct i0 s) eqn:E0, (match_items ct i1 s) eqn:E1; try reflexivity.
+  - apply match_items_spec, S0, S1, match_items_spec in E0. congruence.
+  - apply match_items_spec, S1, S0, match_items_spec in E1. congruence.
 Qed.
 
 (* ------------------------------------------------------------------ G. one batch extraction, at the level of the text *)
